@@ -28,6 +28,7 @@ type PropSpec struct {
 	Assumptions       []string `json:"assumptions"`
 	NotDecided        []string `json:"not_decided"`
 	Mutants           []string `json:"mutants"` // selftest patches expected to be caught (thorough)
+	SMTLemmas         []SMTLemma   `json:"smt_lemmas"`   // lemmas over spec functions stated directly in SMT-LIB (theories the contract language has no syntax for: bit-vectors with floating point)
 	BoundedRuns       []BoundedRun `json:"bounded_runs"` // bounded stand-ins run in the thorough tier (never counted as proved)
 }
 
@@ -341,6 +342,43 @@ func checkMain(args []string) int {
 
 	// thorough adjuncts
 	var adjunct []map[string]interface{}
+	for _, l := range ps.SMTLemmas {
+		st, solver, out, secs := runSMTLemma(verifDir, l, timeout)
+		id := "smtlemma:" + l.ID
+		entry := map[string]interface{}{"id": id, "kind": "smtlemma", "status": st, "solver": solver, "time_s": round3(secs), "file": l.File}
+		obsOut = append(obsOut, entry)
+		if st == "discharged" {
+			nOb++
+			nDis++
+			bySolver[solver]++
+			continue
+		}
+		if f, ok := open[id]; ok {
+			nKnown++
+			seenKnown = append(seenKnown, id)
+			fmt.Printf("KNOWN-FINDING: property=%s %s %s\n", prop, id, f.What)
+			entry["known_finding"] = true
+			continue
+		}
+		nOb++
+		violations++
+		payload := map[string]interface{}{"property": prop, "obligation": id, "kind": "smtlemma", "status": st, "solver": solver, "solver_output": tail(out, 1500), "file": l.File}
+		suffix := " no-failing-input-found"
+		if st == "refuted" && l.Template != "" {
+			if tb, err := os.ReadFile(filepath.Join(verifDir, "replay", l.Template)); err == nil {
+				ok, rout, src := runReplay(verifDir, repo, string(tb), id, map[string]string{"solver_model": tail(out, 600)})
+				payload["replay_test"] = src
+				payload["replay_output"] = tail(rout, 1500)
+				payload["replay_confirms_violation"] = ok
+				if ok {
+					suffix = ""
+				}
+			}
+		}
+		rp := writeReplay(verifDir, prop, id, payload)
+		fmt.Printf("FAILED %s [%s] %s\n", id, st, l.File)
+		fmt.Printf("VIOLATION property=%s replay=%s%s\n", prop, rp, suffix)
+	}
 	for _, br := range ps.BoundedRuns {
 		if tier != "thorough" && !br.Quick {
 			continue
@@ -498,6 +536,49 @@ func writeReplay(verifDir, prop, id string, payload interface{}) string {
 
 // runMutant applies a selftest patch to a scratch copy of the repo and
 // expects the property's quick check to report a violation there.
+// SMTLemma: a lemma over the spec functions of the contracts, written in
+// SMT-LIB because it needs bit-vector / floating-point reasoning the contract
+// language does not offer. The file asserts the NEGATION of the lemma; unsat
+// discharges it, sat refutes it (the model is the counterexample, replayed on
+// the real code through the template when there is one).
+type SMTLemma struct {
+	ID       string `json:"id"`
+	File     string `json:"file"`
+	Template string `json:"template"`
+}
+
+func runSMTLemma(verifDir string, l SMTLemma, toMS int) (status, solver, out string, secs float64) {
+	b, err := os.ReadFile(filepath.Join(verifDir, l.File))
+	if err != nil {
+		return "undecided", "", err.Error(), 0
+	}
+	type ans struct {
+		st, solver, out string
+		secs            float64
+	}
+	ch := make(chan ans, len(solvers))
+	for _, sp := range solvers {
+		go func(sp solverSpec) {
+			o, secs := runSolver(sp, string(b), toMS, false, time.Duration(toMS+3000)*time.Millisecond)
+			first := strings.TrimSpace(strings.SplitN(strings.TrimSpace(o), "\n", 2)[0])
+			ch <- ans{first, sp.name, o, secs}
+		}(sp)
+	}
+	status = "undecided"
+	for range solvers {
+		a := <-ch
+		if status == "undecided" && (a.st == "unsat" || a.st == "sat") {
+			if a.st == "unsat" {
+				status = "discharged"
+			} else {
+				status = "refuted"
+			}
+			solver, out, secs = a.solver, a.out, a.secs
+		}
+	}
+	return
+}
+
 // BoundedRun: a bounded check of functions the contracts do not reach (or of a
 // clause no contract within reach expresses), run on the real code through a
 // replay template; labelled bounded, reported separately, never counted as
